@@ -1,5 +1,5 @@
 # replay of a bounded stand-in violation (C16): re-run native/c16_states.py
 import sys
-print('n=2 pure=True cat: quad_expectation(0,0.8) = [-0.03659, 1.18744] on bosonic, [-0.03659, 2.88812] on fock')
+print('fock pure=True: run(prog, modes=[2, 0]).state: index i of the returned state is not the i-th requested mode (quadratures [0.755, 1.11, 0.755, 1.11] vs [-0.023, -0.037, -0.023, -0.037] from the full state)')
 print('REPLAY-VIOLATION')
 sys.exit(1)
